@@ -36,21 +36,30 @@ from . import gen, common, c05_presets, c05_sessions
 PROP = "C05"
 LEVEL = "proof"
 LEVEL_TEXT = (
-    "Partial proof plus verified checking. Proved in Lean 4 for all inputs: the path/tree validity "
-    "checkers are sound and complete w.r.t. the replay semantics (each input consumed exactly once, one "
-    "tensor left); from_path with autocomplete completes every replayable path for every valid "
-    "sub-optimizer; every word of ContractionProcessor operations followed by "
-    "optimize_remaining_by_size emits a valid complete SSA path; build_divide's loop terminates for every "
-    "partitioner and every choice of the next childless node; build_agglom's loop terminates whenever "
-    "each round merges something, provably not otherwise (defect), and always after the proposed repair; "
-    "kahypar's short-circuits return full-length memberships. The remaining quantifier -- registered "
-    "optimizer x sampled hyper-parameters x network -- is explored with the verified checkers on the real "
-    "outputs.")
+    "Proof plus verified checking. Proved in Lean 4 for all inputs: the path/tree validity checkers are "
+    "sound and complete w.r.t. the replay semantics (each input consumed exactly once, one tensor left); "
+    "from_path with autocomplete completes every replayable path of any arity, with the sub-optimizer "
+    "assumption discharged for the code as it stands (contract_nodes on k >= 3 nodes replays the inner "
+    "finder's path: complete whenever that path is a valid pairwise path of the k nodes); every word of "
+    "ContractionProcessor operations followed by optimize_remaining_by_size emits a valid complete SSA "
+    "path, ssa_to_linear turns every valid SSA path into a valid linear path without raising, and "
+    "from_path(ssa_path) needs no autocompletion (greedy / optimal / random-greedy trials end to end); "
+    "RandomOptimizer's path is valid for every PRNG; build_divide's loop terminates for every number of "
+    "inputs, every contract-honouring partitioner and every order of childless nodes; build_agglom's loop "
+    "terminates for every partitioner (code as repaired; the unrepaired loop provably hangs); kahypar's "
+    "short-circuits return full-length memberships; a preset bound to a function building its optimizer "
+    "per call answers every sequence of queries with a path of the queried network, one shared "
+    "RandomGreedyOptimizer provably does not, and a closed obligation over the table regenerated from the "
+    "live preset registry shows that no preset is bound to an object that carries a best-so-far between "
+    "calls. The remaining quantifier -- registered optimizer x sampled hyper-parameters x network x order "
+    "of calls in one process -- is explored with the verified checkers on the real outputs.")
 LEVEL_NOTE = (
-    "Trusted: Lean kernel; the hand-written models (Model/Path, Processor, Partition) validated by the "
-    "differential runs of this check; native kahypar, the numeric scores and every inner optimizer are "
-    "oracles (the theorems quantify over them); the `children` dict mechanics of contract_nodes are "
-    "checked on the real trees, not proved; harness canonicalisation and the independent Python oracles.")
+    "Trusted: Lean kernel; the hand-written models (Model/Path, Processor, Partition, ContractNodes, "
+    "BestSoFar) validated by the differential runs of this check; native kahypar, the numeric scores and "
+    "every inner optimizer are oracles (the theorems quantify over them); the `children` dict mechanics of "
+    "contract_nodes_pair and the nested case of get_incomplete_nodes are checked on the real trees, not "
+    "proved; the extractor of the preset table (harness/c05_presets.py: reflection over the live registry "
+    "+ AST of the registered classes); harness canonicalisation and the independent Python oracles.")
 TECHNIQUE = ("Lean 4 proofs (replay invariants, parametricity of the replay in the item type, termination "
              "measures) + certificate checking of real paths/trees + differential correspondence")
 LEAN_MODULES = ["CotengraVerif.Props.C05", "CotengraVerif.Props.C05Facts"]
@@ -70,6 +79,16 @@ THEOREMS = [
     "Cotengra.C05.agglom_counterexample",
     "Cotengra.C05.agglom_fixed_complete",
     "Cotengra.C05.kahypar_edge_cases",
+    "Cotengra.C05.divide_terminates",
+    "Cotengra.C05.agglom_terminates",
+    "Cotengra.C05.contractNodes_complete",
+    "Cotengra.C05.validShape_of_inner",
+    "Cotengra.C05.fromPath_kary_complete",
+    "Cotengra.C05.randomOptimizer_path_valid",
+    "Cotengra.C05.ssaToLinear_valid",
+    "Cotengra.C05.fromSSA_complete_noauto",
+    "Cotengra.C05.greedy_finder_valid",
+    "Cotengra.C05.random_greedy_preset_valid",
     "Cotengra.C05.preset_fresh_per_call_valid",
     "Cotengra.C05.preset_shared_instance_counterexample",
     "Cotengra.C05.shared_instance_same_network_valid",
@@ -82,9 +101,14 @@ TRUSTED = [
     "Lean 4.33 kernel; axioms ⊆ {propext, Classical.choice, Quot.sound}",
     "hand-written models Model/Path.lean (core.py:474-574, 1343-1399), Model/Processor.lean "
     "(path_basic.py:410-461, 475-527, 604-628, 761-786), Model/Partition.lean (core.py:3968-4077, 4100-4109, "
-    "path_kahypar.py:69-98), tied by this check on the generated cases only",
+    "path_kahypar.py:69-98), Model/ContractNodes.lean (core.py:1343-1399, path_basic.py:821-843, "
+    "path_random.py:25-35), Model/BestSoFar.lean (path_basic.py:1457-1458, 1519-1523; what register_preset "
+    "stores), tied by this check on the generated cases only",
     "native kahypar, greedy scores, DP result, PRNGs: oracles",
-    "harness: symbol renaming, children-dict dump, independent validity oracles",
+    "harness/c05_presets.py: the preset table is read off the live registry and the source of the registered "
+    "classes (a store through `self` on the query path that is read back there counts as carried state)",
+    "harness: symbol renaming, children-dict dump, independent validity oracles; sessions are forked from a "
+    "process image that has imported cotengra but not called into it",
 ]
 ASSUMPTIONS = [
     "finders are driven in-process with cotengrust absent; hyper-parameters are sampled uniformly "
@@ -92,9 +116,14 @@ ASSUMPTIONS = [
     "a call that does not return within the per-call limit (twice confirmed) counts as non-termination",
 ]
 RULE = ("corner-case networks (1 and 2 tensors, scalars, disconnected, hyper / repeated / dangling / "
-        "all-tensor indices, size-1 dims) and 11-40-tensor graphs x {presets, optimizer objects, registered "
-        "hyper functions with sampled parameters, HyperOptimizer.search, explicit linear/SSA/edge paths incl. "
-        "partial and multi-arity}; non-trivial = >= 3 tensors or a corner feature; distinct by content hash")
+        "all-tensor indices, size-1 dims) and 11-40-tensor graphs x {presets with interface options (shapes, "
+        "canonicalize, sort_contraction_indices), optimizer objects and functions with simplify / use_ssa / "
+        "cost options, registered hyper functions with sampled parameters, HyperOptimizer.search, explicit "
+        "linear/SSA/edge paths incl. partial and multi-arity with an explicit inner finder, partial trees "
+        "completed by autocomplete}; sessions = sequences of 2-6 calls in one pristine process image through "
+        "every registered preset string (registry enumerated at run time; cheaper-then-dearer, more-then-fewer "
+        "tensors and back) and through explicit linear / edge paths in tuple / list containers in every order; "
+        "non-trivial = >= 3 tensors or a corner feature; distinct by content hash")
 BUDGET = {"quick": 900, "thorough": 3600}
 
 PRESETS = ["greedy", "optimal", "optimal-outer", "auto", "auto-hq", "random"]
@@ -963,8 +992,60 @@ def check_builders(ctx, drv, rng):
         extra = {"sub_optimize": sub, "seed": seed, "random_strength": rng.choice([0.01, 0.0, 0.5])}
         thunk = lambda: builder.build_agglom(*args_of(net), groupsize=groupsize, **extra)  # noqa: E731
         params = dict({"groupsize": groupsize, "partitioner": style}, **extra)
+    trace = []
+    if which == "divide":
+        # intermediate state: `tree.childless` before and after every iteration of the loop (each makes
+        # exactly one outermost contract_nodes call)
+        orig_cn = ccore.ContractionTree.contract_nodes
+        depth = [0]
+
+        def rec_cn(self, nodes, *a, **k):
+            top = depth[0] == 0 and getattr(self, "track_childless", False)
+            if top:
+                entry = {"before": [[int(x) for x in nd] for nd in self.childless],
+                         "nodes": [sorted(int(x) for x in nd) for nd in nodes], "calls": len(log)}
+            depth[0] += 1
+            try:
+                out = orig_cn(self, nodes, *a, **k)
+            finally:
+                depth[0] -= 1
+            if top:
+                entry["after"] = [sorted(int(x) for x in nd) for nd in self.childless]
+                trace.append(entry)
+            return out
+        inner_thunk = thunk
+
+        def thunk():            # noqa: F811
+            ccore.ContractionTree.contract_nodes = rec_cn
+            try:
+                return inner_thunk()
+            finally:
+                ccore.ContractionTree.contract_nodes = orig_cn
     tree = run_finder(ctx, drv, net, "adversarial", "PartitionTreeBuilder." + which, "tree", style, thunk,
                       params, case_extra={"builder": which})
+    if which == "divide" and tree is not None and trace:
+        ok_trace = True
+        for it, e in enumerate(trace):
+            sub = e["before"][0] if e["before"] else []
+            if sorted(x for nd in e["nodes"] for x in nd) != sorted(sub):
+                ctx.corr_broken("build_divide: the contracted nodes are not a division of the first childless "
+                                "node", {"iteration": it, "entry": e, "params": params})
+                ok_trace = False
+                break
+            partitioned = len(sub) > params["cutoff"]
+            m = log[e["calls"] - 1] if (partitioned and e["calls"] >= 1) else []
+            r = drv.call("c05.divide_step", cutoff=params["cutoff"], childless=e["before"], membership=m, pick=0)
+            ctx.traces += 1
+            got = sorted(sorted(x) for x in r.get("childless", []))
+            if r.get("result") != "ok" or got != sorted(e["after"]):
+                ctx.corr_broken("build_divide: `tree.childless` after an iteration differs from divideStep",
+                                {"iteration": it, "entry": e, "membership": m, "model": r, "params": params})
+                ok_trace = False
+                break
+        if ok_trace:
+            ctx.count("divide_iterations_compared", len(trace))
+            if trace[-1]["after"]:
+                ctx.corr_broken("build_divide returned with childless nodes left", {"params": params})
     if which == "divide" and tree is not None:
         # divide_terminates_partial bounds the iterations, hence the partitioner calls, by N - 1
         ctx.count("divide_partition_calls", len(log))
@@ -1460,6 +1541,278 @@ def check_best_so_far(ctx, drv, rng):
     ctx.count("best_so_far:fresh_sequences")
 
 
+# ------------------------------------------------------------------------------ k-ary steps, RandomOptimizer, ssa_to_linear (E)
+
+
+class InnerFinder:
+    """an `optimize` object for `contract_nodes`: answers with the given pairwise paths in order (replay)
+    or with random valid pairwise paths (recorded)"""
+
+    def __init__(self, rng=None, answers=None):
+        self.rng, self.answers, self.log = rng, list(answers or []), []
+
+    def __call__(self, inputs, output, size_dict, **kw):
+        k = len(inputs)
+        if self.answers:
+            path = self.answers.pop(0)
+        else:
+            path = rand_linear_path(self.rng, k)
+        self.log.append([k, [list(st) for st in path]])
+        return [tuple(st) for st in path]
+
+
+def kary_keys(n, path, autocomplete=True):
+    """the node sets (sorted inputs) of the steps of three or more nodes, in the order `from_path` meets
+    them, plus the final completion"""
+    live = [[i] for i in range(n)]
+    keys = []
+    for p in path:
+        picked = [live.pop(i) for i in sorted(p, reverse=True)]
+        if len(picked) >= 3:
+            keys.append((sorted(x for g in picked for x in g), len(picked)))
+        live.append(sorted(x for g in picked for x in g))
+    if autocomplete and len(live) >= 3:
+        keys.append((sorted(x for g in live for x in g), len(live)))
+    return keys
+
+
+def check_kary(ctx, drv, rng):
+    """`from_path` with steps of any arity and an explicit inner finder: the real tree against
+    `fromLinearK` (Model/ContractNodes) given the same inner answers -- exact, orientation-free"""
+    net = gen.rand_net(rng, nmin=3, nmax=9) if rng.random() < 0.6 else medium_net(rng, 6, 11)
+    n = len(net.inputs)
+    inputs, output, sd = args_of(net)
+    path = rand_linear_path(rng, n, arity_max=rng.choice([3, 4, 6]), singles=rng.random() < 0.3,
+                            stop_early=rng.choice([0, 0, 1, 2, 3, 4]))
+    if n - sum(len(st) - 1 for st in path) < 1:
+        return
+    keys = kary_keys(n, path)
+    answers = [rand_linear_path(rng, k) for _, k in keys]
+    finder = InnerFinder(answers=[list(a) for a in answers])
+    ctx.count("kary:steps>=3", sum(1 for st in path if len(st) >= 3))
+    ctx.count("kary:final_completion>=3", int(n - sum(len(st) - 1 for st in path) >= 3))
+    tree = run_finder(ctx, drv, net, "kary", "from_path(kary)", "tree", "inner-finder",
+                      lambda: ccore.ContractionTree.from_path(inputs, output, sd, path=path, optimize=finder,
+                                                              autocomplete=True),
+                      {"path": path, "inner": answers}, case_extra={"explicit": "kary"})
+    if tree is None:
+        return
+    if [k for k, _ in finder.log] != [k for _, k in keys] or finder.answers:
+        ctx.corr_broken("from_path: the inner finder is not called once per step of >= 3 nodes (+ completion)",
+                        {"net": net.json(), "path": path, "log": finder.log, "keys": keys})
+        return
+    inner = [[key, pth] for (key, _), (_, pth) in zip(keys, finder.log)]
+    r = drv.call("c05.from_path_kary", n=n, path=path, inner=inner, autocomplete=True)
+    ctx.traces += 1
+    real = tree["nested"]
+    same = r.get("result") == "ok" and len(r.get("trees", [])) == 1 and \
+        canon_tree(r["trees"][0])[0] == canon_tree(real)[0]
+    if not same:
+        ctx.corr_broken("from_path with k-ary steps: model tree differs from the real tree",
+                        {"net": net.json(), "path": path, "inner": inner, "model": r, "real": real})
+    else:
+        ctx.count("kary:tree_equal")
+
+
+class _RecRng:
+    def __init__(self, rng):
+        self.rng, self.log = rng, []
+
+    def randint(self, a, b):
+        v = self.rng.randint(a, b)
+        self.log.append([int(a), int(b), int(v)])
+        return v
+
+    def __getattr__(self, name):
+        return getattr(self.rng, name)
+
+
+def check_random_optimizer(ctx, drv, rng):
+    """`RandomOptimizer.__call__` against `randomPath` for the PRNG draws it actually made"""
+    from cotengra.pathfinders.path_random import RandomOptimizer
+    net = gen.rand_net(rng, nmin=1, nmax=9)
+    n = len(net.inputs)
+    opt = RandomOptimizer(seed=rng.randrange(1 << 30))
+    rec = _RecRng(opt.rng)
+    opt.rng = rec
+    st, path = guarded(lambda: [[int(x) for x in s_] for s_ in opt(*args_of(net))])
+    ctx.count("random_optimizer")
+    if st != "ok":
+        return          # judged by the catalogue entry of the same finder
+    draws, vals = [], [v for _, _, v in rec.log]
+    k = 0
+    while k < len(vals):
+        i = vals[k]
+        k += 1
+        j = i
+        while j == i and k < len(vals):
+            j = vals[k]
+            k += 1
+        draws.append([i, j])
+    r = drv.call("c05.random_path", n=n, draws=draws)
+    ctx.traces += 1
+    if r.get("path") != path or not r.get("draws_ok"):
+        ctx.corr_broken("RandomOptimizer: path / draws differ from Model randomPath / drawsOK",
+                        {"n": n, "draws": draws, "real": path, "model": r, "ranges": rec.log[:6]})
+
+
+def check_ssa_to_linear(ctx, drv, rng):
+    """`ssa_to_linear` against the model on valid ssa paths (any arity) and on paths that are not paths of
+    the `N` given (stale ids, ids twice): same answer or `IndexError` on both sides"""
+    n = rng.randint(1, 9)
+    lin = rand_linear_path(rng, n, arity_max=rng.choice([2, 2, 4]), singles=rng.random() < 0.2,
+                           stop_early=rng.choice([0, 0, 0, 1, 2]))
+    ssa = linear_to_ssa_own(n, lin)
+    kind = rng.choice(["valid", "valid", "other-n", "mangled"])
+    N = n
+    if kind == "other-n":
+        N = max(1, n + rng.choice([-2, -1, 1, 2]))
+    elif kind == "mangled" and ssa:
+        k = rng.randrange(len(ssa))
+        ssa[k] = [rng.randrange(0, 2 * n) for _ in ssa[k]]
+    ctx.count("ssa_to_linear:" + kind)
+
+    def real():
+        return [[int(x) for x in st] for st in pb.ssa_to_linear([tuple(st) for st in ssa], N)]
+    st, val = guarded(real)
+    r = drv.call("c05.ssa_to_linear", n=N, path=ssa)
+    ctx.traces += 1
+    real_res = ("ok", val) if st == "ok" else ("indexerror" if str(val).startswith("IndexError") else str(val), None)
+    model_res = (r.get("result"), r.get("path"))
+    if real_res != model_res:
+        ctx.corr_broken("ssa_to_linear differs from the model", {"N": N, "ssa": ssa, "real": [st, val], "model": r})
+        return
+    if kind == "valid" and st == "ok":
+        complete = valid_ssa(n, ssa)
+        if complete:
+            inferred = [[int(x) for x in s_] for s_ in pb.ssa_to_linear([tuple(s_) for s_ in ssa])]
+            if inferred != val:
+                ctx.corr_broken("ssa_to_linear(N=None) differs from ssa_to_linear(N) on a complete path",
+                                {"N": N, "ssa": ssa})
+        if valid_linear(n, val, partial=not complete) is False:
+            ctx.violation({"site": "ssa_to_linear", "label": "fn", "ntensors": str(n), "error": "invalid-path"},
+                          {"case": {"site": "ssa_to_linear", "n": n, "ssa": ssa}, "observed": val},
+                          "ssa_to_linear turns a valid ssa path into an invalid linear path")
+
+
+# ------------------------------------------------------------------------------ autocomplete / get_incomplete_nodes
+
+
+def build_partial(net, params):
+    """a partially built tree: top-down `splits` (node, left part) and bottom-up `pairs` of existing
+    disjoint nodes, as recorded in params"""
+    inputs, output, sd = args_of(net)
+    t = ccore.ContractionTree(inputs, output, sd)
+    for node, left in params["splits"]:
+        l = frozenset(left)
+        t.contract_nodes_pair(l, frozenset(node) - l)
+    for x, y in params["pairs"]:
+        t.contract_nodes_pair(frozenset(x), frozenset(y))
+    return t
+
+
+def gen_partial(rng, n):
+    splits, pairs = [], []
+    childless = [list(range(n))]
+    for _ in range(rng.randint(0, 3)):
+        big = [c for c in childless if len(c) >= 2]
+        if not big:
+            break
+        c = rng.choice(big)
+        k = rng.randint(1, len(c) - 1)
+        left = sorted(rng.sample(c, k))
+        right = sorted(set(c) - set(left))
+        splits.append([c, left])
+        childless.remove(c)
+        childless += [left, right]
+    # bottom-up pieces inside the childless nodes
+    for c in [c for c in childless if len(c) >= 3]:
+        avail = [[x] for x in c]
+        for _ in range(rng.randint(0, len(c) - 2)):
+            if len(avail) < 3:
+                break
+            x, y = rng.sample(avail, 2)
+            avail.remove(x)
+            avail.remove(y)
+            pairs.append([x, y])
+            avail.append(sorted(x + y))
+    return {"splits": splits, "pairs": pairs}
+
+
+def check_autocomplete(ctx, drv, rng):
+    """`get_incomplete_nodes` / `autocomplete` (core.py:412-472): (flat) after a partial `from_path` the
+    one group is the model's list of live subtrees and completing it gives the model's tree; (nested)
+    trees built partly top-down and partly bottom-up are completed -- certificate: `checkTree`"""
+    if rng.random() < 0.5:
+        net = gen.rand_net(rng, nmin=3, nmax=9)
+        n = len(net.inputs)
+        inputs, output, sd = args_of(net)
+        path = rand_linear_path(rng, n, arity_max=rng.choice([2, 3, 4]), stop_early=rng.randint(1, 4))
+        left = n - sum(len(st) - 1 for st in path)
+        if left < 1:
+            return
+        keys = kary_keys(n, path, autocomplete=False)
+        ans1 = [rand_linear_path(rng, k) for _, k in keys]
+        ans2 = [rand_linear_path(rng, left)] if left >= 3 else []
+        params = {"path": path, "inner": ans1, "final": ans2}
+        groups_seen = []
+
+        def thunk():
+            t = ccore.ContractionTree.from_path(inputs, output, sd, path=path, autocomplete=False,
+                                                optimize=InnerFinder(answers=[list(a) for a in ans1]))
+            g = t.get_incomplete_nodes()
+            groups_seen.append([[sorted(int(x) for x in k), [sorted(int(x) for x in nd) for nd in v]]
+                                for k, v in g.items()])
+            t.autocomplete(optimize=InnerFinder(answers=[list(a) for a in ans2]))
+            return t
+        ctx.count("autocomplete:flat")
+        tree = run_finder(ctx, drv, net, "autocomplete", "autocomplete(flat)", "tree", "partial-path", thunk, params)
+        if tree is None:
+            return
+        inner = [[key, pth] for (key, _), pth in zip(keys, ans1)]
+        r0 = drv.call("c05.from_path_kary", n=n, path=path, inner=inner, autocomplete=False)
+        ctx.traces += 1
+
+        def leafsets(ts):
+            def lv(t):
+                return [t] if isinstance(t, int) else lv(t[0]) + lv(t[1])
+            return [sorted(lv(t)) for t in ts]
+        want = leafsets(r0.get("trees", [])) if r0.get("result") == "ok" else None
+        got = groups_seen[-1] if groups_seen else None
+        exp_groups = [] if left == 1 else [[list(range(n)), want]]
+        if want is None or got is None or \
+                [[k, sorted(v)] for k, v in got] != [[k, sorted(v)] for k, v in exp_groups]:
+            ctx.corr_broken("get_incomplete_nodes after a partial from_path differs from the model's live subtrees",
+                            {"net": net.json(), "params": params, "real": got, "model": r0})
+            return
+        same_order = got == exp_groups
+        ctx.count("autocomplete:group_in_model_order" if same_order else "autocomplete:group_other_order")
+        if same_order:
+            inner2 = inner + ([[list(range(n)), ans2[0]]] if ans2 else [])
+            r1 = drv.call("c05.from_path_kary", n=n, path=path, inner=inner2, autocomplete=True)
+            ok = r1.get("result") == "ok" and len(r1.get("trees", [])) == 1 and \
+                canon_tree(r1["trees"][0])[0] == canon_tree(tree["nested"])[0]
+            if not ok:
+                ctx.corr_broken("autocomplete: completed tree differs from the model", 
+                                {"net": net.json(), "params": params, "real": tree["nested"], "model": r1})
+            else:
+                ctx.count("autocomplete:tree_equal")
+        return
+    net = gen.rand_net(rng, nmin=2, nmax=10) if rng.random() < 0.6 else medium_net(rng, 6, 12)
+    n = len(net.inputs)
+    params = gen_partial(rng, n)
+    params["optimize"] = rng.choice(["greedy", "auto", "auto-hq", "optimal" if n <= 8 else "greedy"])
+    ctx.count("autocomplete:nested")
+    ctx.count("autocomplete:nested_splits", len(params["splits"]))
+    ctx.count("autocomplete:nested_pairs", len(params["pairs"]))
+
+    def thunk2():
+        t = build_partial(net, params)
+        t.autocomplete(optimize=params["optimize"])
+        return t
+    run_finder(ctx, drv, net, "autocomplete", "autocomplete(nested)", "tree", "partial-tree", thunk2, params)
+
+
 # ------------------------------------------------------------------------------ hyper optimizer route
 
 
@@ -1537,6 +1890,14 @@ def run(ctx, drv):
         if ctx.time_left() < 20:
             break
         check_best_so_far(ctx, drv, rng)
+    for _ in range(300 if quick else 3000):
+        if ctx.time_left() < 20:
+            break
+        check_kary(ctx, drv, rng)
+        check_autocomplete(ctx, drv, rng)
+        check_random_optimizer(ctx, drv, rng)
+        check_ssa_to_linear(ctx, drv, rng)
+        check_ssa_to_linear(ctx, drv, rng)
 
 
 def _rebuild(case):
@@ -1572,6 +1933,23 @@ def _rebuild(case):
         return net, "path", lambda: pb.OptimalOptimizer(**params)(inputs, output, sd)
     if site == "RandomOptimizer":
         return net, "path", lambda: ctg.pathfinders.path_random.RandomOptimizer(**params)(inputs, output, sd)
+    if site == "autocomplete(flat)":
+        def thunk_flat():
+            t = ccore.ContractionTree.from_path(inputs, output, sd, path=params["path"], autocomplete=False,
+                                                optimize=InnerFinder(answers=[list(a) for a in params["inner"]]))
+            t.autocomplete(optimize=InnerFinder(answers=[list(a) for a in params["final"]]))
+            return t
+        return net, "tree", thunk_flat
+    if site == "autocomplete(nested)":
+        def thunk_nested():
+            t = build_partial(net, params)
+            t.autocomplete(optimize=params["optimize"])
+            return t
+        return net, "tree", thunk_nested
+    if site == "from_path(kary)":
+        finder = InnerFinder(answers=[list(a) for a in params["inner"]])
+        return net, "tree", lambda: ccore.ContractionTree.from_path(inputs, output, sd, path=params["path"],
+                                                                   optimize=finder, autocomplete=True)
     if site in ("from_path(linear)", "from_path(ssa)"):
         key = "ssa_path" if site.endswith("(ssa)") else "path"
         return net, "tree", lambda: ccore.ContractionTree.from_path(inputs, output, sd, autocomplete=True,
